@@ -837,7 +837,18 @@ func genC16(c *Ctx) {
 		b := c16GenBox(r, mode)
 		o := 1 - 2*r.Intn(2)
 		qs := spts(c16Samples(r, b, 16))
-		switch s := r.Intn(27); {
+		switch s := r.Intn(32); {
+		// the families of the white-box round (c16_near.go) come ON TOP of the budget: the older families
+		// below keep their 27 shares of it
+		case s >= 27 && s < 30: // vertices NEXT TO the box lines
+			k--
+			c16GenNear(c, r, mode, o)
+		case s == 30: // rings touching in one point on / next to / away from the box boundary
+			k--
+			c16GenTouch(c, r, mode, o)
+		case s == 31: // k bands / teeth crossing the box: up to 28 endpoints, every polygon stitched from two pieces
+			k--
+			c16GenBands(c, r, mode, o)
 		case s >= 20 && s < 23: // general position, vertices snapped onto box corners and sides (review D1)
 			bb := c16GenBox(r, 2)
 			var ps []orb.Point
